@@ -14,7 +14,7 @@ LEVEL = "exploration"
 TECHNIQUE = ("runtime reference-model monitor: typed-list model per property and ordered-dict model per section, compared "
              "with every read path after every create/assign/extend/clear/dict-style/refused step and after reopen")
 RULE = ("Case = one section (0-2 subsections, 1-4 properties of the four value types) driven through 2-12 steps from "
-        "{assign, extend, clear (None | [] | delete_values), wrong-type candidate, mixed-type candidate with the odd "
+        "{assign, extend, clear (None | [] | delete_values), wrong-type candidate (list, tuple or one NumPy array of any width), mixed-type candidate with the odd "
         "element at a chosen position, dict-style set/get/del, create/delete property, create subsection, optional "
         "attributes, reopen RO/RW}; after every step all properties' values (order, type class, bit-exact floats) and "
         "the dict view are compared with the model.  Distinct by (value type, ordered step kinds, faulty-position "
